@@ -72,6 +72,13 @@ func poolMgr(id int) types.TemplateManager {
 
 // runReloadImpl executes the history on the real renderer; outputs are rendered in the model's vocabulary.
 func runReloadImpl(hot bool, first *int, ops []rlOp) (initErr bool, outs []any) {
+	// a history on which the renderer never comes back (a lock left held) is reported by the watchdog with this input
+	var opsJ []any
+	for _, o := range ops {
+		opsJ = append(opsJ, o.j())
+	}
+	crumb("reloadable renderer: history of Reload / Instance / GetTemplate calls", J{"hot_reload": hot, "first_build_ok": first != nil, "ops": opsJ})
+	defer crumbAt.Store(0)
 	var next *int
 	builder := func(ctx context.Context) (types.TemplateManager, error) {
 		if next == nil {
